@@ -237,3 +237,25 @@ func init() {
 		fmt.Println(string(b))
 	})
 }
+
+// TopBucketStats opens the file read-only with the real code and returns Bucket.Stats() of every
+// top-level bucket, in key order (the order in which the decoder lists the top-level buckets).
+func TopBucketStats(path string) ([]map[string]int, error) {
+	db, err := bolt.Open(path, 0o600, &bolt.Options{ReadOnly: true, Timeout: time.Second})
+	if err != nil {
+		return nil, err
+	}
+	defer db.Close()
+	out := []map[string]int{}
+	err = db.View(func(tx *bolt.Tx) error {
+		return tx.ForEach(func(_ []byte, b *bolt.Bucket) error {
+			s := b.Stats()
+			out = append(out, map[string]int{"branchPageN": s.BranchPageN, "branchOverflowN": s.BranchOverflowN, "leafPageN": s.LeafPageN,
+				"leafOverflowN": s.LeafOverflowN, "keyN": s.KeyN, "depth": s.Depth, "branchAlloc": s.BranchAlloc, "branchInuse": s.BranchInuse,
+				"leafAlloc": s.LeafAlloc, "leafInuse": s.LeafInuse, "bucketN": s.BucketN, "inlineBucketN": s.InlineBucketN,
+				"inlineBucketInuse": s.InlineBucketInuse})
+			return nil
+		})
+	})
+	return out, err
+}
